@@ -83,8 +83,14 @@ LimitsOK(r) ==
     /\ r.max = LimitMax /\ r.lowest = LimitMax + 32768
     /\ r.min = LimitMinNormal /\ r.denorm_min = LimitDenormMin
     /\ r.epsilon = LimitEpsilon
+    /\ r.round_error = 14336                          \* 0.5: round to nearest
     /\ r.infinity = 31744
     /\ I!IsNaN(H, I!Dec16(r.qnan)) /\ I!IsNaN(H, I!Dec16(r.snan))
+    \* half's own factories: the two infinities, a quiet NaN (top fraction bit set) and a signalling NaN (top fraction bit clear)
+    /\ r.posInf = 31744 /\ r.negInf = 31744 + 32768
+    /\ I!IsNaN(H, I!Dec16(r.qNan)) /\ (r.qNan % 1024) \div 512 = 1
+    /\ I!IsNaN(H, I!Dec16(r.sNan)) /\ (r.sNan % 1024) \div 512 = 0
+    /\ r.qnan = r.qNan /\ r.snan = r.sNan
     /\ r.digits = H.p
     \* digits10: largest d with 10^d <= 2^(p-1); max_digits10: least d with 10^d > 2^p ... +1
     /\ B!Pow2Small(H.p - 1) >= 10 ^ r.digits10 /\ B!Pow2Small(H.p - 1) < 10 ^ (r.digits10 + 1)
